@@ -249,14 +249,15 @@ def _model_md(old, new, now):
 
 
 def h_update_metadata(now: int, has_old: bool, has_ctime: bool, ctime: int, has_tahoe: bool, has_lcr: bool, lcr: int,
-                      lmo: int, u_old: int, has_new: bool, new_tahoe: bool, nt: int, no_write: int, u_new: int) -> bool:
+                      lmo: int, u_old: int, has_new: bool, new_tahoe: bool, nt: int, no_write: int, u_new: int, new_empty: bool) -> bool:
     """
     pre: 0 <= no_write <= 2
+    pre: not new_empty or (has_new and not new_tahoe and no_write == 0)
     post: _ == True
     """
     old = _old_md(has_ctime, ctime, has_tahoe, has_lcr, lcr, lmo, u_old) if has_old else None
     old_snapshot = _cp(old) if old is not None else None
-    new = _new_md(has_new, new_tahoe, nt, no_write, u_new)
+    new = {} if new_empty else _new_md(has_new, new_tahoe, nt, no_write, u_new)
     new_snapshot = _cp(new) if new is not None else None
     r = D.update_metadata(old, new, now)
     t = r.get("tahoe")
@@ -278,7 +279,10 @@ def h_update_metadata(now: int, has_old: bool, has_ctime: bool, ctime: int, has_
         return "caller's tahoe key not ignored"
     if has_old and has_tahoe and t.get("future") != 7:
         return "other tahoe keys of the old link lost"
-    if has_new:
+    if new_empty:
+        if sorted(r.keys()) != ["tahoe"]:
+            return "an empty metadata dict must replace (clear) the user metadata"
+    elif has_new:
         if "user" in r or r.get("user2") != u_new:
             return "user metadata not replaced by the caller's"
         if ("no-write" in r) != (no_write != 0):
@@ -314,7 +318,7 @@ def _ok(key, v):
 A_SEL = 5      # existing entry: 0 absent, 1 file, 2 directory, 3 unknown, 4 read-only file
 N_SEL = 5      # new child: 0 file, 1 directory, 2 unknown, 3 read-only file, 4 read-only directory
 SHAPES = 4     # old metadata: 0 tahoe{linkcrtime,linkmotime}+ctime, 1 ctime only, 2 tahoe{linkmotime}+ctime, 3 neither
-NM_SEL = 6     # caller's metadata: 0 None, 1 {user2}, 2 +forged tahoe, 3 +no-write False, 4 +no-write True, 5 +no-write True +forged tahoe
+NM_SEL = 7     # caller's metadata: 0 None, 1 {user2}, 2 +forged tahoe, 3 +no-write False, 4 +no-write True, 5 +no-write True +forged tahoe, 6 {} (empty dict)
 
 
 def _a_kind_ro(a):
@@ -360,6 +364,8 @@ def _sel_new_md(nm, nt, u_new):
         return _new_md(True, False, nt, 1, u_new)
     if nm == 4:
         return _new_md(True, False, nt, 2, u_new)
+    if nm == 6:
+        return {}
     return _new_md(True, True, nt, 2, u_new)
 
 
@@ -422,7 +428,7 @@ def _entries_eq(packed, before):
     return [(n, c, md) for (n, c, md) in packed.entries] == before
 
 
-def h_adder(ow: int, raw: int, a: int, shape: int, n: int, nm: int, use_set_node: bool,
+def h_adder(ow: int, raw: int, a: int, shape: int, n: int, nm: int, use_set_node: bool, first_time: bool,
             ctime: int, lcr: int, lmo: int, u_old: int, nt: int, u_new: int, now: int) -> bool:
     """
     pre: 0 <= ow <= 2 and 0 <= raw < len(RAW) and 0 <= a < A_SEL and 0 <= shape < SHAPES and 0 <= n < N_SEL and 0 <= nm < NM_SEL
@@ -445,7 +451,8 @@ def h_adder(ow: int, raw: int, a: int, shape: int, n: int, nm: int, use_set_node
         ad = D.Adder(node, {_pick(RAW, raw): (child, newmd)}, overwrite=_pick(OW, ow), create_readonly_node=ron)
     want_exc = _model_add(model, _pick(NFC, raw), n_kind, b"new", n_ro, _cp(newmd) if newmd is not None else None, ow, now)
     try:
-        out = ad.modify(packed, None, True)
+        # first_time=False is a retry after an uncoordinated write: the overwrite rules are the same
+        out = ad.modify(packed, None, first_time)
     except ExistingChildError:
         if want_exc != "exists":
             return "ExistingChildError although the overwrite mode allows the add"
@@ -533,7 +540,7 @@ def h_deleter(raw: int, a: int, must_exist: bool, first_time: bool, mbd: bool, m
     return _check_map(out, model)
 
 
-def h_mdsetter(raw: int, a: int, shape: int, nm: int, with_ron: bool,
+def h_mdsetter(raw: int, a: int, shape: int, nm: int, with_ron: bool, first_time: bool,
                ctime: int, lcr: int, lmo: int, u_old: int, nt: int, u_new: int, now: int) -> bool:
     """
     pre: 0 <= raw < len(RAW) and 0 <= a < A_SEL and 0 <= shape < SHAPES and 1 <= nm < NM_SEL
@@ -550,7 +557,7 @@ def h_mdsetter(raw: int, a: int, shape: int, nm: int, with_ron: bool,
     ms = D.MetadataSetter(node, _pick(RAW, raw), newmd, create_readonly_node=ron)
     name = _pick(NFC, raw)
     try:
-        out = ms.modify(packed, None, True)
+        out = ms.modify(packed, None, first_time)
     except NoSuchChildError:
         if name in model:
             return "NoSuchChildError for a name that is present"
